@@ -203,6 +203,7 @@ static int g_nflight;
 static int g_next_dgram;
 static int g_total_sent;
 static ns_dgram_t *g_pending; /* datagram being handed to coap_socket_recv */
+static int g_pending_owned;   /* epoll path: recv frees it after copying */
 static struct ns_sock *g_pending_sk;
 int ns_send_fail_next;
 void (*ns_on_send)(const ns_dgram_t *d);
@@ -430,6 +431,10 @@ __wrap_coap_socket_recv(coap_socket_t *sock, coap_packet_t *packet) {
     packet->addr_info.local.addr.sin.sin_addr = d->dst.addr.sin.sin_addr;
     packet->ifindex = 1;
   }
+  if (g_pending_owned) {
+    g_pending_owned = 0;
+    dg_free(d);
+  }
   return (ssize_t)n;
 }
 
@@ -563,6 +568,9 @@ __wrap_coap_socket_connect_tcp2(coap_socket_t *sock, coap_address_t *local_addr,
   return 1;
 }
 
+#ifdef COAP_EPOLL_SUPPORT
+static void ns_epoll_forget(int fd);
+#endif
 void __wrap_coap_socket_close(coap_socket_t *sock);
 void
 __wrap_coap_socket_close(coap_socket_t *sock) {
@@ -577,9 +585,19 @@ __wrap_coap_socket_close(coap_socket_t *sock) {
     }
     if (g_pending_sk == k)
       g_pending_sk = NULL;
+#ifdef COAP_EPOLL_SUPPORT
+    ns_epoll_forget(k->fd);
+#endif
     k->kind = SK_FREE;
     k->sock = NULL;
   }
+#ifdef COAP_EPOLL_SUPPORT
+  /* what the real coap_socket_close() does in epoll builds besides closing the descriptor */
+#if COAP_SERVER_SUPPORT
+  sock->endpoint = NULL;
+#endif
+  sock->session = NULL;
+#endif
   sock->fd = COAP_INVALID_SOCKET;
   sock->flags = COAP_SOCKET_EMPTY;
 }
@@ -790,6 +808,135 @@ ns_stream_pump(void) {
   return rounds;
 }
 
+#ifdef COAP_EPOLL_SUPPORT
+/* ------------------------------------------------------------------------------------------ */
+/* epoll builds of libcoap (the configuration the repository's CMake emits): the epoll instance, the timerfd
+ * and epoll_wait() are served by the harness.  No real descriptor is ever created.                */
+#include <sys/epoll.h>
+#include <sys/timerfd.h>
+#define NS_EPFD_BASE 900
+static struct {
+  int fd;
+  void *ptr;
+  uint32_t events;
+} g_ep[NS_MAXSOCK + 8];
+static int g_nep;
+static int g_next_epfd = NS_EPFD_BASE;
+int (*ns_epoll_wait_hook)(int epfd, struct epoll_event *ev, int max, int timeout);
+
+int
+epoll_create1(int flags) {
+  (void)flags;
+  return g_next_epfd++;
+}
+int
+timerfd_create(int clockid, int flags) {
+  (void)clockid;
+  (void)flags;
+  return g_next_epfd++;
+}
+int
+timerfd_settime(int fd, int flags, const struct itimerspec *nv, struct itimerspec *ov) {
+  (void)fd;
+  (void)flags;
+  (void)nv;
+  (void)ov;
+  return 0;
+}
+static void
+ns_epoll_forget(int fd) {
+  for (int i = 0; i < g_nep; i++)
+    if (g_ep[i].fd == fd) {
+      g_ep[i] = g_ep[--g_nep];
+      return;
+    }
+}
+int
+epoll_ctl(int epfd, int op, int fd, struct epoll_event *event) {
+  (void)epfd;
+  if (op == EPOLL_CTL_DEL) {
+    for (int i = 0; i < g_nep; i++)
+      if (g_ep[i].fd == fd) {
+        g_ep[i] = g_ep[--g_nep];
+        return 0;
+      }
+    errno = ENOENT;
+    return -1;
+  }
+  for (int i = 0; i < g_nep; i++)
+    if (g_ep[i].fd == fd) {
+      g_ep[i].ptr = event->data.ptr;
+      g_ep[i].events = event->events;
+      return 0;
+    }
+  if (g_nep < NS_MAXSOCK + 8) {
+    g_ep[g_nep].fd = fd;
+    g_ep[g_nep].ptr = event->data.ptr;
+    g_ep[g_nep].events = event->events;
+    g_nep++;
+  }
+  return 0;
+}
+/* non-blocking: one EPOLLIN event for the destination socket of the oldest in-flight datagram */
+int
+ns_epoll_fill(struct epoll_event *ev, int max) {
+  if (max < 1)
+    return 0;
+  for (;;) {
+    if (g_pending && g_pending_sk && g_pending_sk->sock) {
+      ev[0].events = EPOLLIN;
+      ev[0].data.ptr = g_pending_sk->sock;
+      return 1;
+    }
+    if (g_pending) { /* stale */
+      dg_free(g_pending);
+      g_pending = NULL;
+    }
+    if (g_nflight == 0)
+      return 0;
+    ns_dgram_t *d = flight_take(0);
+    if (ns_on_deliver)
+      ns_on_deliver(d);
+    struct ns_sock *best = NULL;
+    for (int i = 0; i < NS_MAXSOCK && !best; i++) {
+      struct ns_sock *k = &g_socks[i];
+      if (k->kind == SK_UDP_CLIENT && addr_eq(&k->local, &d->dst) && (addr_eq(&k->remote, &d->src) || addr_is_mcast(&k->remote)))
+        best = k;
+    }
+    for (int i = 0; i < NS_MAXSOCK && !best; i++) {
+      struct ns_sock *k = &g_socks[i];
+      if (k->kind == SK_UDP_EP && k->local.addr.sin.sin_port == d->dst.addr.sin.sin_port &&
+          (addr_is_any(&k->local) || addr_is_mcast(&d->dst) || k->local.addr.sin.sin_addr.s_addr == d->dst.addr.sin.sin_addr.s_addr))
+        best = k;
+    }
+    if (!best) {
+      if (ns_raw_rx)
+        ns_raw_rx(d);
+      dg_free(d);
+      continue;
+    }
+    g_pending = d; /* owned by netsim until consumed by coap_socket_recv (freed there) */
+    g_pending_sk = best;
+    g_pending_owned = 1;
+  }
+}
+int
+epoll_wait(int epfd, struct epoll_event *ev, int max, int timeout) {
+  if (ns_epoll_wait_hook)
+    return ns_epoll_wait_hook(epfd, ev, max, timeout);
+  return ns_epoll_fill(ev, max);
+}
+static int (*real_close)(int);
+int
+close(int fd) {
+  if (fd >= NS_EPFD_BASE && fd < 1024)
+    return 0;
+  if (!real_close)
+    real_close = (int (*)(int))dlsym(RTLD_NEXT, "close");
+  return real_close(fd);
+}
+#endif /* COAP_EPOLL_SUPPORT */
+
 /* ------------------------------------------------------------------------------------------ */
 /* servicing + generic scheduler                                                               */
 unsigned
@@ -925,6 +1072,13 @@ ns_init(void) {
   g_total_sent = 0;
   g_nctx = 0;
   g_nstreams = 0;
+  g_pending = NULL;
+  g_pending_sk = NULL;
+  g_pending_owned = 0;
+#ifdef COAP_EPOLL_SUPPORT
+  g_nep = 0;
+  g_next_epfd = NS_EPFD_BASE;
+#endif
   ns_dups_done = 0;
   ns_steps = 0;
   ns_send_fail_next = 0;
@@ -939,6 +1093,9 @@ ns_init(void) {
 
 void
 ns_fini(void) {
+  if (g_pending && g_pending_owned)
+    dg_free(g_pending);
+  g_pending = NULL;
   while (g_nflight)
     dg_free(flight_take(0));
   for (int i = 0; i < g_nstreams; i++) {
